@@ -347,7 +347,7 @@ pub fn run(tier: Tier) -> i32 {
     par_range(ctx.threads, cases.len(), |i| {
         let c = &cases[i];
         ctx.eval(1);
-        for (sig, what) in check_case(c) {
+        for (sig, what) in crate::common::run_case(|| serde_json::to_value(c).unwrap(), || check_case(c)) {
             ctx.report(Violation { signature: sig, what, case: serde_json::to_value(c).unwrap(), weight: (c.params.len() * 10 + c.path.len()) as u64 });
         }
         let rc = config(c.flags, c.marketing_set);
